@@ -41,7 +41,9 @@ class BeginSystem(PintParsedStatement):
     """
 
     #: Regex to match the header parts of a context.
-    _header_re = re.compile(r"@system\s+(?P<name>\w+)\s*(using\s(?P<used_groups>.*))*")
+    _header_re = re.compile(
+        r"@system\s+(?P<name>\w+)\s*(?:using\s(?P<used_groups>.*)|#.*)?$"
+    )
 
     name: str
     using_group_names: ty.Tuple[str, ...]
